@@ -19,7 +19,7 @@ framework: crates ec-core, ec-linear, push, push-macros, ec-macros). You work ON
 worktree `{wt}` (already created; it is a checkout of the repository). Do not read or touch /repo, /verif or any
 other directory outside `{wt}`. The sandbox has no network: always use `cargo ... --offline` (set
 CARGO_NET_OFFLINE=true). `cargo test --workspace --offline` is the existing test suite and passes on the unchanged
-tree (the first build takes a few minutes). A file `packages/push/src/push_vm/verif_mini_state.rs` behind
+tree (the first build takes a few minutes; other jobs share this machine: pass `-j 3` to every cargo build/test command). A file `packages/push/src/push_vm/verif_mini_state.rs` behind
 `cfg(uec_verif)` is inert instrumentation: ignore it and do not modify it.
 
 Here is a semantic property that the library is supposed to satisfy:
